@@ -1,13 +1,199 @@
 /-
-  Property C07 — PLACEHOLDER while the full theorem file (lean/stmts/C07.lean.txt) is being proved.
+  Property C07 — no spending, burning, sending or consuming for an address without its authorisation.
+  Statements are FIXED: prove them exactly as stated (helper lemmas go above them or in Cgp/Proofs/C07.lean).
+  In every model `auths` is the set of addresses that authorised exactly this call (or are the calling contract): a
+  success therefore REQUIRES the named address's own authorisation — nobody else's (recipient, counterparty, owner) helps.
 -/
 import Cgp.Token
+import Cgp.GasService
+import Cgp.GatewayOps
+import Cgp.ItsOps
+import Cgp.Operators
+import Cgp.Executable
+import Cgp.Props.C12
+import Cgp.Props.C14
+import Cgp.Props.C18
+import Cgp.Props.C02
 namespace Cgp.Props.C07
 open Cgp Cgp.Xdr
 
+/-! ### token -/
+
+/-- the address whose authorisation a token operation needs -/
+def tokenSubject : Token.Op → Option Addr
+  | .approve src _ _ _ => some src
+  | .transfer src _ _ => some src
+  | .transferFrom spender _ _ _ => some spender
+  | .burn src _ => some src
+  | .burnFrom spender _ _ => some spender
+  | .mintFrom minter _ _ => some minter
+  | _ => none
+
+theorem token_debit_needs_subject (st : Token.State) (c : Token.Ctx) (op : Token.Op) (a : Addr) (evs : List Token.Event)
+    (hs : tokenSubject op = some a) (hok : (Token.step st c op).2 = .ok evs) : a ∈ c.auths := by
+  rcases C12.step_cases st c op with ⟨e, _, hstep⟩ | ⟨st', evs', hap, hstep⟩
+  · rw [hstep] at hok; cases hok
+  · cases op with
+    | mintFrom m t x =>
+      simp only [tokenSubject, Option.some.injEq] at hs; subst hs
+      exact (C12.mintFrom_exact _ _ _ _ _ _ _ hap).1
+    | mint t x => simp [tokenSubject] at hs
+    | addMinter m => simp [tokenSubject] at hs
+    | removeMinter m => simp [tokenSubject] at hs
+    | approve s p x e =>
+      simp only [tokenSubject, Option.some.injEq] at hs; subst hs
+      exact (C12.approve_exact' _ _ _ _ _ _ _ _ hap).1
+    | transfer s d x =>
+      simp only [tokenSubject, Option.some.injEq] at hs; subst hs
+      exact (C12.transfer_exact _ _ _ _ _ _ _ hap).1
+    | transferFrom p s d x =>
+      simp only [tokenSubject, Option.some.injEq] at hs; subst hs
+      exact (C12.transferFrom_exact _ _ _ _ _ _ _ _ hap).1
+    | burn s x =>
+      simp only [tokenSubject, Option.some.injEq] at hs; subst hs
+      exact (C12.burn_exact _ _ _ _ _ _ hap).1
+    | burnFrom p s x =>
+      simp only [tokenSubject, Option.some.injEq] at hs; subst hs
+      exact (C12.burnFrom_exact _ _ _ _ _ _ _ hap).1
+    | transferOwnership n => simp [tokenSubject] at hs
+
+/-- a delegated spend additionally needs an allowance granted BY THE HOLDER: without one (never granted or expired) a
+    positive delegated transfer or burn fails even with the spender's authorisation -/
+theorem delegated_needs_allowance (st : Token.State) (c : Token.Ctx) (spender src dst : Addr) (amount : Int)
+    (hpos : 0 < amount) (hno : (Token.readAllowance st c.seq src spender).amount = 0) :
+    (∃ e, Token.transferFrom st c spender src dst amount = .error e) ∧ (∃ e, Token.burnFrom st c spender src amount = .error e) := by
+  exact C12.insufficient_allowance_rejected st c spender src dst amount (by rw [hno]; exact hpos)
+
 theorem token_refused_unchanged (st : Token.State) (c : Token.Ctx) (op : Token.Op) (e : Token.Err)
     (h : (Token.step st c op).2 = .error e) : (Token.step st c op).1 = st := by
-  simp only [Token.step] at h ⊢
-  split <;> simp_all
+  exact C12.rejected_no_effect st c op e h
+
+/-! ### gas service -/
+
+theorem gas_payment_needs_spender (H : Bytes → Bytes) (st : GasService.State) (auths : List Addr) (sender : Addr)
+    (chain dest payload msgId : Bytes) (spender token : Addr) (amount : Int) (metadata : Bytes) :
+    ((∃ r, GasService.payGas H st auths sender chain dest payload spender token amount metadata = .ok r) → spender ∈ auths) ∧
+    ((∃ r, GasService.addGas st auths sender msgId spender token amount = .ok r) → spender ∈ auths) := by
+  refine ⟨?_, ?_⟩
+  · rintro ⟨⟨st', evs⟩, h⟩
+    exact (C14.payGas_inv h).1
+  · rintro ⟨⟨st', evs⟩, h⟩
+    exact (C14.addGas_inv h).1
+
+/-! ### gateway -/
+
+theorem gateway_needs_caller (H : Bytes → Bytes) (st : Gateway.State) (auths : List Addr) (caller : Addr)
+    (chain dest payload id src ph : Bytes) :
+    ((∃ r, Gateway.callContract H st auths caller chain dest payload = .ok r) → caller ∈ auths) ∧
+    ((∃ r, Gateway.validateMessage H st auths caller chain id src ph = .ok r) → caller ∈ auths) := by
+  refine ⟨?_, ?_⟩
+  · rintro ⟨r, h⟩
+    unfold Gateway.callContract at h
+    split at h
+    · cases h
+    · rename_i hc; exact Decidable.not_not.mp hc
+  · rintro ⟨r, h⟩
+    unfold Gateway.validateMessage at h
+    split at h
+    · cases h
+    · rename_i hc; exact Decidable.not_not.mp hc
+
+/-- consuming a message FOR an address needs that address: the message is only ever consumed for the authorised caller -/
+theorem consume_only_for_caller (H : Bytes → Bytes) (st st' : Gateway.State) (auths : List Addr) (caller : Addr)
+    (chain id src ph : Bytes) (evs : List Gateway.Event)
+    (h : Gateway.validateMessage H st auths caller chain id src ph = .ok (st', true, evs)) :
+    caller ∈ auths ∧ st.approvals chain id =
+      .approved (Gateway.messageHash H { sourceChain := chain, messageId := id, sourceAddress := src, contract := caller, payloadHash := ph }) := by
+  exact (C02.consume_iff H st auths caller chain id src ph).mp ⟨st', evs, h⟩
+
+/-! ### interchain token service -/
+
+theorem its_needs_caller (H S : Bytes → Bytes) (k : Its.Consts) (st : Its.State) (auths : List Addr) (caller token spender : Addr)
+    (salt name symbol dest tid destAddr : Bytes) (decimals : Nat) (supply amount : Int) (minter : Option Addr)
+    (data : Option Bytes) (gasToken : Addr) (gasAmount : Int) :
+    ((∃ r, Its.deployInterchainToken H S k st auths caller salt name symbol decimals supply minter = .ok r) → caller ∈ auths) ∧
+    ((∃ r, Its.deployRemoteInterchainToken H k st auths caller salt dest gasToken gasAmount = .ok r) → caller ∈ auths) ∧
+    ((∃ r, Its.deployRemoteCanonicalToken H k st auths token dest spender gasToken gasAmount = .ok r) → spender ∈ auths) ∧
+    ((∃ r, Its.interchainTransfer H k st auths caller tid dest destAddr amount data gasToken gasAmount = .ok r) → caller ∈ auths) := by
+  refine ⟨?_, ?_, ?_, ?_⟩
+  · rintro ⟨r, h⟩
+    by_cases hc : caller ∈ auths
+    · exact hc
+    · exfalso
+      unfold Its.deployInterchainToken at h
+      rw [if_pos hc] at h
+      cases h
+  · rintro ⟨⟨st', tid', evs⟩, h⟩
+    exact (C18.remote_interchain_needs H k _ _ _ _ _ _ _ _ _ _ h).1
+  · rintro ⟨⟨st', tid', evs⟩, h⟩
+    exact (C18.remote_canonical_needs H k _ _ _ _ _ _ _ _ _ _ h).1
+  · rintro ⟨r, h⟩
+    unfold Its.interchainTransfer at h
+    split at h
+    · cases h
+    · split at h
+      · cases h
+      · rename_i hc; exact Decidable.not_not.mp hc
+
+theorem its_refused_unchanged (H S : Bytes → Bytes) (k : Its.Consts) (st : Its.State) (op : Its.Op) (e : Its.Err)
+    (h : (Its.step H S k st op).2 = .err e) : (Its.step H S k st op).1 = st := by
+  cases op with
+  | setTrusted au c => exact C18.wrapEv_err _ _ _ h
+  | removeTrusted au c => exact C18.wrapEv_err _ _ _ h
+  | transferOwnership au n => exact C18.wrapEv_err _ _ _ h
+  | deploy au ca sa n sy d su m => exact C18.wrapId_err _ _ _ h
+  | registerCanonical t => exact C18.wrapId_err _ _ _ h
+  | deployRemote au ca sa de gt ga => exact C18.wrapId_err _ _ _ h
+  | deployRemoteCanonical au t de sp gt ga => exact C18.wrapId_err _ _ _ h
+  | transfer au ca ti de da am dt gt ga => exact C18.wrapEv_err _ _ _ h
+  | execute c i sa p => exact C18.wrapEv_err _ _ _ h
+  | gateway f => simp only [Its.step] at h; cases h
+  | userTransfer t s d a au =>
+    simp only [Its.step] at h ⊢
+    split
+    · rfl
+    · rename_i hn
+      rw [if_neg hn] at h
+      split
+      · rename_i st' heq
+        rw [heq] at h; cases h
+      · rfl
+  | minterMint t m d a au =>
+    simp only [Its.step] at h ⊢
+    split
+    · rename_i tk heq
+      split
+      · rfl
+      · rename_i hn
+        rw [heq] at h
+        simp only [] at h
+        rw [if_neg hn] at h
+        cases h
+    · rfl
+
+/-! ### operators contract and the example application -/
+
+theorem operators_execute_needs_operator {τ : Type} (tgt : Operators.Target τ) (self : Addr) (st : Operators.State) (ts : τ)
+    (auths : List Addr) (o c : Addr) (f : Bytes) (args : List ScVal) (r : τ × ScVal)
+    (h : Operators.execute tgt self st ts auths o c f args = .ok r) : o ∈ auths ∧ st.isOp o = true := by
+  unfold Operators.execute at h
+  split at h
+  · cases h
+  · rename_i hc
+    split at h
+    · cases h
+    · rename_i ho
+      exact ⟨Decidable.not_not.mp hc, by simpa using ho⟩
+
+theorem example_send_needs_caller (H : Bytes → Bytes) (gs : GasService.State) (auths : List Addr) (app caller : Addr)
+    (chain dest message : Bytes) (token : Addr) (amount : Int) (r : GasService.State × List GasService.Event)
+    (h : Executable.exampleSend H gs auths app caller chain dest message token amount = .ok r) :
+    caller ∈ auths ∧ 0 < amount := by
+  unfold Executable.exampleSend at h
+  split at h
+  · cases h
+  · rename_i hc
+    obtain ⟨st', evs⟩ := r
+    exact ⟨Decidable.not_not.mp hc, (C14.payGas_inv h).2.1⟩
 
 end Cgp.Props.C07
